@@ -44,10 +44,10 @@ def _meta(draw, ch):
         for t in ticks:
             if kind == "ts":
                 val = draw(st.tuples(st.integers(1, 12), st.sampled_from(gens.DENOMS)).filter(lambda v: v != prev))
-                ev.append(["ts", t, val[0], val[1], ch])
+                ev.append(["ts", t, val[0], val[1], draw(st.sampled_from(ch)) if isinstance(ch, (list, tuple)) else ch])
             else:
                 val = draw(st.sampled_from(gens.KEYS).filter(lambda v: v != prev))
-                ev.append(["ks", t, val, ch])
+                ev.append(["ks", t, val, draw(st.sampled_from(ch)) if isinstance(ch, (list, tuple)) else ch])
             prev = val
     return ev
 
@@ -65,11 +65,26 @@ def _room(notes, i):
 @st.composite
 def _case(draw):
     attr = draw(st.one_of(st.just("same"), st.sampled_from(PERTURB), st.sampled_from(PERTURB)))
-    single = attr == "relabel" or draw(st.booleans())
+    # (signature perturbations mostly on two-channel material: which channel appears first on a shared tick must not matter)
+    single = attr == "relabel" or (draw(st.integers(0, 3)) == 0 if attr[:3] in ("ts_", "ks_") else draw(st.booleans()))
     c0 = draw(st.integers(0, 3))
     channels = (c0,) if single else (0, 1)
     notes = draw(gens.wellformed_notes(channels=channels, pitches=(60, 61, 62), max_notes=6, max_len=30, max_gap=20))
-    meta = draw(_meta(c0 if single else 0))
+    # (on two-channel material the signature events sit on either channel, often on the tick of a note onset)
+    meta = draw(_meta(c0 if single else [0, 1, 1]))
+    if not single and notes and draw(st.booleans()):
+        onsets = sorted({n[2] for n in notes})
+        original = copy.deepcopy(meta)
+        for m in meta:
+            if draw(st.booleans()):
+                t = draw(st.sampled_from(onsets))
+                if not any(x is not m and x[0] == m[0] and x[1] == t for x in meta):
+                    m[1] = t
+        for kind in ("ts", "ks"):
+            vals = [tuple(m[2:-1]) for m in sorted((m for m in meta if m[0] == kind), key=lambda m: m[1])]
+            if any(a == b for a, b in zip(vals, vals[1:])):
+                meta = original          # (moving must not create a restated signature: normalising one side would drop it)
+                break
     base = {"notes": notes, "meta": meta, "pad": None}
     base.update(draw(gens.route()))
     if attr != "relabel" and draw(st.integers(0, 3)) == 0:
